@@ -221,6 +221,34 @@ func (h *determinismHook) post(c *explore.Ctx, pre *world.World, act world.Actio
 	if !bytes.Equal(canonStep(p1, l1), base) {
 		c.Report(p, "determinism", fn+":"+cls+":repetition", fmt.Sprintf("repeating %s on an equal world with the same (reused) function object gives a different result", DescribeAction(act)))
 	}
+	// the returned structures are the caller's: every number in the output of the repetition is
+	// changed in place (a caller books balances into what it got back); if the function handed out
+	// something it keeps using - a package-level zero, a cached value - the executions below differ
+	for _, l := range l1 {
+		if l.Out == nil {
+			continue
+		}
+		five := big.NewInt(5)
+		if l.Out.GasRefund != nil {
+			l.Out.GasRefund.Add(l.Out.GasRefund, five)
+		}
+		for _, oa := range l.Out.OutputAccounts {
+			if oa == nil {
+				continue
+			}
+			if oa.Balance != nil {
+				oa.Balance.Add(oa.Balance, five)
+			}
+			if oa.BalanceDelta != nil {
+				oa.BalanceDelta.Add(oa.BalanceDelta, five)
+			}
+			for i := range oa.OutputTransfers {
+				if v := oa.OutputTransfers[i].Value; v != nil {
+					v.Add(v, five)
+				}
+			}
+		}
+	}
 	// (2) a container freshly built by the factory
 	fe := h.fresh()
 	p2, l2 := fe.Step(pre.Clone(), act)
